@@ -176,9 +176,9 @@ impl Transform for Ellipse {
 #[derive(Clone, Copy, Eq, PartialEq, PartialOrd, Ord, Hash, Debug)]
 #[cfg_attr(feature = "defmt", derive(::defmt::Format))]
 pub(in crate::primitives) struct EllipseContains {
-    a: u32,
-    b: u32,
-    threshold: u32,
+    a: u64,
+    b: u64,
+    threshold: u64,
 }
 
 impl EllipseContains {
@@ -188,14 +188,16 @@ impl EllipseContains {
     pub const fn new(size: Size) -> Self {
         let Size { width, height } = size;
 
-        let a = width.pow(2);
-        let b = height.pow(2);
+        // 64 bit integers are required, because the products below exceed `u32::MAX` for
+        // ellipses larger than about 256 x 256 pixels.
+        let a = width as u64 * width as u64;
+        let b = height as u64 * height as u64;
 
         // Special case for circles, where width and height are equal
         let threshold = if width == height {
-            circle::diameter_to_threshold(width)
+            circle::diameter_to_threshold(width) as u64
         } else {
-            b * a
+            b.saturating_mul(a)
         };
 
         Self { a, b, threshold }
@@ -203,14 +205,17 @@ impl EllipseContains {
 
     /// Returns `true` if the point is inside the ellipse.
     pub const fn contains(&self, point: Point) -> bool {
-        let x = point.x.pow(2) as u32;
-        let y = point.y.pow(2) as u32;
+        let x = (point.x as i64 * point.x as i64) as u64;
+        let y = (point.y as i64 * point.y as i64) as u64;
 
         // Special case for circles, where width and height are equal
         if self.a == self.b {
-            x + y < self.threshold
+            x.saturating_add(y) < self.threshold
         } else {
-            self.b * x + self.a * y < self.threshold
+            self.b
+                .saturating_mul(x)
+                .saturating_add(self.a.saturating_mul(y))
+                < self.threshold
         }
     }
 }
